@@ -377,7 +377,7 @@ class X86:
             k = self.conc(self.src(ops[0], 8), "shift/rotate count") if len(ops) == 2 else 1
             tgt = ops[-1]
             v = self.src(tgt, w)
-            r = {"ror": b.rotr, "rol": b.rotl, "shl": b.shl, "shr": b.lshr}[op[:3]](v, k % 64 if op[:2] == "ro" else k)
+            r = {"ror": b.rotr, "rol": b.rotl, "shl": b.shl, "shr": b.lshr}[op[:3]](v, k & (w - 1))   # hardware masks the count to 6 (5) bits
             self.dst_set(tgt, r)
             self.flags = None
         elif op == "bswapq":
